@@ -400,7 +400,7 @@ def run(tier, seed):
             stat["exact_by_tlc"] += 1
         elif traces[j]["exact"] == "no":
             stat["inexact_but_within_at_multiple_of_pi/4"] += 1
-        if v == "ok" and traces[j]["exact"] != "yes":
+        if v == "ok" and traces[j]["exact"] != "yes" and c["eps"] >= 1e-7:      # (below 1e-7 the float64 slack term dominates)
             stat["max_ratio_dist_over_eps"] = max(stat["max_ratio_dist_over_eps"], round(r["d_min"] / c["eps"], 6))
         if r.get("d_ret") is not None and r["d_ret"] > slack(c["eps"]) + 1e-9 and v == "ok":
             stat["returned_phase_off"] += 1
